@@ -12,7 +12,7 @@ spec keys:
   births: list of births per step (cycled)                birth_phase: listener channel used for births
   mort: None | {"mods": k}              disease: None | {"states": 2..4, "p": [sixteenths...], "self": bool}
   stepmod: None | {"every": k, "mult": m}   (per-simulant clocks: simulants with id % every == 0 ask for m * step)
-  obs: None | {"strats": 0..3, "when": phase, "concat": bool, "defaults": [] | ["sex"] (needs strats >= 1) | ["sex", "color"] (>= 2)}
+  obs: None | {"strats": 0..3, "when": phase, "concat": bool, "defaults": [] | ["sex"] (needs strats >= 1) | ["sex", "color"] (>= 2), "values": 0..5 required value pipelines}
 """
 from __future__ import annotations
 
@@ -215,6 +215,27 @@ class _AgeSum:
         return df["age"].sum()
 
 
+class _RiskSource:
+    """picklable pipeline source: a different exact function of age per pipeline"""
+
+    def __init__(self, view, k):
+        self.view, self.k = view, k
+
+    def __call__(self, index):
+        age = self.view.get(index)["age"]
+        return age * (self.k + 1) + self.k * 1000.0
+
+
+class _RiskSum:
+    """aggregator that tells the required value columns apart (weights differ per column)"""
+
+    def __init__(self, n):
+        self.n = n
+
+    def __call__(self, df):
+        return float(sum((k + 1) * df[f"risk_{k}"].sum() for k in range(self.n)))
+
+
 class Obs(Component):
     def __init__(self, spec):
         super().__init__()
@@ -248,6 +269,15 @@ class Obs(Component):
                                                     aggregator=_AgeSum(), requires_columns=["age"])
         if o.get("concat"):
             builder.results.register_concatenating_observation("rows", requires_columns=["age", "sex"])
+        nv = int(o.get("values", 0))
+        if nv:
+            # an observation that needs several VALUE PIPELINES (the results manager evaluates them per event)
+            view = builder.population.get_view(["age", "tracked"])
+            for k in range(nv):
+                builder.value.register_value_producer(f"risk_{k}", source=_RiskSource(view, k), requires_columns=["age"])
+            builder.results.register_adding_observation("risk_sum", when=o.get("when", "collect_metrics"),
+                                                        additional_stratifications=strats[:1], aggregator_sources=[f"risk_{k}" for k in range(nv)],
+                                                        aggregator=_RiskSum(nv), requires_values=[f"risk_{k}" for k in range(nv)])
 
 
 def build(spec):
